@@ -11,33 +11,33 @@ From V Require Import Common.NumFacts C14.Model C14.Proofs.
    a read of any property on any existing object returns the value the property package computes for the
    object's CURRENT phase(s), T, P and normalised composition (times the current total flow where the
    source scales) -- never a memoised value of another state.  [spec_read] never looks at a memo. *)
-Theorem C14_read_fresh : forall calc1 calcx,
+Theorem C14_read_fresh : forall calc1 calcx cv,
   calc1_respects calc1 -> calcx_respects calcx ->
   forall ops i name flow nophase,
-    let w' := run_world calc1 calcx true w0 ops in
+    let w' := run_world calc1 calcx true cv w0 ops in
     (i < length (cobjs (w_cs w')))%nat ->
     rd_equiv (snd (get_property calc1 calcx w' i name flow nophase))
              (spec_read calc1 calcx w' i name flow nophase).
 Proof.
-  intros calc1 calcx H1 Hx ops i name flow nophase w' Hi.
-  exact (read_fresh_gen calc1 calcx true H1 Hx ops w0 i name flow nophase (or_introl eq_refl) (Inv_cs0 calc1 calcx) Hi).
+  intros calc1 calcx cv H1 Hx ops i name flow nophase w' Hi.
+  exact (read_fresh_gen calc1 calcx true H1 Hx cv ops w0 i name flow nophase (or_introl eq_refl) (Inv_cs0 calc1 calcx) Hi).
 Qed.
 Print Assumptions C14_read_fresh.
 
 (* The same for what a history observes: a read operation appended to any history yields a value equivalent
    to the specification and leaves every flow, phase, T and P cell untouched (or names no object). *)
-Theorem C14_read_op_fresh : forall calc1 calcx,
+Theorem C14_read_op_fresh : forall calc1 calcx cv,
   calc1_respects calc1 -> calcx_respects calcx ->
   forall ops i name flow nophase,
-    let w' := run_world calc1 calcx true w0 ops in
-    (exists r, snd (step calc1 calcx true w' (ORead i name flow nophase)) = BVal r /\
+    let w' := run_world calc1 calcx true cv w0 ops in
+    (exists r, snd (step calc1 calcx true cv w' (ORead i name flow nophase)) = BVal r /\
                rd_equiv r (spec_read calc1 calcx w' i name flow nophase) /\
-               w_st (fst (step calc1 calcx true w' (ORead i name flow nophase))) = w_st w')
+               w_st (fst (step calc1 calcx true cv w' (ORead i name flow nophase))) = w_st w')
     \/ ((length (cobjs (w_cs w')) <= i)%nat /\
-        step calc1 calcx true w' (ORead i name flow nophase) = (w', BErr EIndex)).
+        step calc1 calcx true cv w' (ORead i name flow nophase) = (w', BErr EIndex)).
 Proof.
-  intros calc1 calcx H1 Hx ops i name flow nophase.
-  exact (read_op_fresh calc1 calcx true H1 Hx ops w0 i name flow nophase (or_introl eq_refl) (Inv_cs0 calc1 calcx)).
+  intros calc1 calcx cv H1 Hx ops i name flow nophase.
+  exact (read_op_fresh calc1 calcx true H1 Hx cv ops w0 i name flow nophase (or_introl eq_refl) (Inv_cs0 calc1 calcx)).
 Qed.
 Print Assumptions C14_read_op_fresh.
 
@@ -51,8 +51,8 @@ Proof. exact spec_read_pstate. Qed.
 Print Assumptions C14_spec_depends_only_on_state.
 
 (* A freshly constructed single-phase stream is in exactly the state it was constructed with. *)
-Theorem C14_new_stream_state : forall calc1 calcx sk w d p T P pkg,
-  let w' := fst (step calc1 calcx sk w (ONew [d] [p] T P pkg)) in
+Theorem C14_new_stream_state : forall calc1 calcx sk cv w d p T P pkg,
+  let w' := fst (step calc1 calcx sk cv w (ONew [d] [p] T P pkg)) in
   pstate_of (w_st w') (length (objs (w_st w))) = mkps false [p] [d] T P /\
   (length (objs (w_st w)) = length (cobjs (w_cs w)) ->
    c_pkg (cobj_of (w_cs w') (length (objs (w_st w)))) = pkg /\
@@ -62,36 +62,54 @@ Print Assumptions C14_new_stream_state.
 
 (* THE PROPERTY AS WORDED: after every history, a read on a single-phase stream equals the same read on a
    stream freshly constructed (appended to the table) with the same flows, phase, T and P and the same package. *)
-Theorem C14_read_equals_fresh_stream : forall calc1 calcx,
+Theorem C14_read_equals_fresh_stream : forall calc1 calcx cv,
   calc1_respects calc1 -> calcx_respects calcx ->
   forall ops i name flow nophase d p T P,
-    let w' := run_world calc1 calcx true w0 ops in
+    let w' := run_world calc1 calcx true cv w0 ops in
     (i < length (cobjs (w_cs w')))%nat ->
     pstate_of (w_st w') i = mkps false [p] [d] T P ->
-    let wn := fst (step calc1 calcx true w' (ONew [d] [p] T P (c_pkg (cobj_of (w_cs w') i)))) in
+    let wn := fst (step calc1 calcx true cv w' (ONew [d] [p] T P (c_pkg (cobj_of (w_cs w') i)))) in
     rd_equiv (snd (get_property calc1 calcx w' i name flow nophase))
              (snd (get_property calc1 calcx wn (length (objs (w_st w'))) name flow nophase)).
 Proof. exact equals_fresh_stream. Qed.
 Print Assumptions C14_read_equals_fresh_stream.
 
 (* the state-side and cache-side object tables stay aligned along every history (model sanity) *)
-Theorem C14_tables_aligned : forall calc1 calcx sk ops,
-  length (objs (w_st (run_world calc1 calcx sk w0 ops))) = length (cobjs (w_cs (run_world calc1 calcx sk w0 ops))).
-Proof. intros calc1 calcx sk ops. apply (run_aligned calc1 calcx sk ops w0). reflexivity. Qed.
+Theorem C14_tables_aligned : forall calc1 calcx sk cv ops,
+  length (objs (w_st (run_world calc1 calcx sk cv w0 ops))) = length (cobjs (w_cs (run_world calc1 calcx sk cv w0 ops))).
+Proof. intros calc1 calcx sk cv ops. apply (run_aligned calc1 calcx sk cv ops w0). reflexivity. Qed.
 Print Assumptions C14_tables_aligned.
 
+(* VOLUMETRIC FLOWS (Stream.vol / MultiStream.vol, read through indexer.by_volume and the _data_cache dict that
+   link_with may share): after every history in the domain [run_adm] (MultiStreams that link flows and T/P have
+   the same phase tuple), for either variant of proxy(), a vol read returns exactly what a volumetric view built
+   at that moment on the stream's own current flows, phase(s) and T/P returns -- never the view of another
+   stream's phase or data.  [spec_vol] never looks at a _data_cache. *)
+Theorem C14_vol_fresh : forall calc1 calcx sk cv ops i,
+  run_adm calc1 calcx sk cv w0 ops = true ->
+  let w' := run_world calc1 calcx sk cv w0 ops in
+  (i < length (cobjs (w_cs w')))%nat ->
+  snd (step calc1 calcx sk cv w' (ORVol i)) = BVec (spec_vol cv (w_st w') i).
+Proof. exact vol_op_fresh. Qed.
+Print Assumptions C14_vol_fresh.
+
+(* ... and that value is a function of (class, phases, flows, T, P) only *)
+Theorem C14_vol_depends_only_on_state : forall cv s i, spec_vol cv s i = vol_of_pstate cv (pstate_of s i).
+Proof. exact spec_vol_pstate. Qed.
+Print Assumptions C14_vol_depends_only_on_state.
+
 (* Source BEFORE the repair: the statement still holds for every history that creates no proxy ... *)
-Theorem C14_read_fresh_without_proxy : forall calc1 calcx,
+Theorem C14_read_fresh_without_proxy : forall calc1 calcx cv,
   calc1_respects calc1 -> calcx_respects calcx ->
   forall ops i name flow nophase,
     forallb (fun o => negb (is_proxy o)) ops = true ->
-    let w' := run_world calc1 calcx false w0 ops in
+    let w' := run_world calc1 calcx false cv w0 ops in
     (i < length (cobjs (w_cs w')))%nat ->
     rd_equiv (snd (get_property calc1 calcx w' i name flow nophase))
              (spec_read calc1 calcx w' i name flow nophase).
 Proof.
-  intros calc1 calcx H1 Hx ops i name flow nophase NP w' Hi.
-  exact (read_fresh_gen calc1 calcx false H1 Hx ops w0 i name flow nophase (or_intror NP) (Inv_cs0 calc1 calcx) Hi).
+  intros calc1 calcx cv H1 Hx ops i name flow nophase NP w' Hi.
+  exact (read_fresh_gen calc1 calcx false H1 Hx cv ops w0 i name flow nophase (or_intror NP) (Inv_cs0 calc1 calcx) Hi).
 Qed.
 Print Assumptions C14_read_fresh_without_proxy.
 
@@ -103,7 +121,7 @@ Definition witness_ops : list op :=
 
 Theorem C14_read_fresh_before_repair_refuted :
   calc1_respects stub_calc1 /\ calcx_respects stub_calcx /\
-  let w' := run_world stub_calc1 stub_calcx false w0 witness_ops in
+  let w' := run_world stub_calc1 stub_calcx false stub_cvol w0 witness_ops in
   (0 < length (cobjs (w_cs w')))%nat /\
   ~ rd_equiv (snd (get_property stub_calc1 stub_calcx w' O O false false))
              (spec_read stub_calc1 stub_calcx w' O O false false).
@@ -120,7 +138,7 @@ Example C14_contract_satisfiable : calc1_respects stub_calc1 /\ calcx_respects s
 Proof. split; [exact stub_calc1_respects | exact stub_calcx_respects]. Qed.
 
 Example C14_witness_repaired :
-  let w' := run_world stub_calc1 stub_calcx true w0 witness_ops in
+  let w' := run_world stub_calc1 stub_calcx true stub_cvol w0 witness_ops in
   (1 < length (cobjs (w_cs w')))%nat /\
   snd (get_property stub_calc1 stub_calcx w' O O false false) = spec_read stub_calc1 stub_calcx w' O O false false /\
   c_m (cobj_of (w_cs w') O) = c_m (cobj_of (w_cs w') 1%nat) /\
@@ -132,6 +150,19 @@ Qed.
 
 (* the hypotheses of C14_read_equals_fresh_stream are met after the witness history (object 0, liquid, T = 300) *)
 Example C14_fresh_stream_hypotheses :
-  let w' := run_world stub_calc1 stub_calcx true w0 witness_ops in
+  let w' := run_world stub_calc1 stub_calcx true stub_cvol w0 witness_ops in
   pstate_of (w_st w') O = mkps false [1%nat] [[1; 3; 0]] 300 101325.
 Proof. vm_compute. reflexivity. Qed.
+
+(* non-vacuity of C14_vol_fresh: a gas stream linked to a liquid stream with (flow, TP) but not the phase; both read vol,
+   the history is in the domain, and the two streams get different volumetric flows for the same molar flows *)
+Definition vol_ops : list op :=
+  [ONew [[1; 2; 1 # 2]] [0%nat] 256 65536 O; ONew [[4; 0; 0]] [1%nat] 300 101325 O;
+   OLink O 1%nat true false true; ORVol 1%nat; ORVol O; OSetT 1%nat 320; ORVol O].
+Example C14_vol_hypotheses :
+  run_adm stub_calc1 stub_calcx true stub_cvol w0 vol_ops = true /\
+  let w' := run_world stub_calc1 stub_calcx true stub_cvol w0 vol_ops in
+  (1 < length (cobjs (w_cs w')))%nat /\
+  veqb (spec_vol stub_cvol (w_st w') O) (spec_vol stub_cvol (w_st w') 1%nat) = false /\
+  i_data (imol_of (w_st w') (o_imol (obj_of (w_st w') O))) = i_data (imol_of (w_st w') (o_imol (obj_of (w_st w') 1%nat))).
+Proof. split; [vm_compute; reflexivity|]. split; [vm_compute; lia|]. split; vm_compute; reflexivity. Qed.
